@@ -230,3 +230,18 @@ def check_dtcwt_pr(cfg, sizes, rnd):
         return False, 'reconstruction has extent %s for input %dx%d' % (tuple(y.shape[2:]), H, W)
     err = float((y[..., :H, :W] - x).abs().max())
     return err < 1e-8, 'DTCWT PR %s/%s J=%d %dx%d: err %.3g' % (biort, qshift, J, H, W, err)
+
+
+@register('ref_pr')
+def check_ref_pr(cfg, sizes, rnd):
+    """perfect reconstruction of the REFERENCE algorithm itself (to which C03/C11 reduce the library)"""
+    import dtcwt
+    biort, qshift = cfg.get('biort', 'near_sym_a'), cfg.get('qshift', 'qshift_a')
+    J = _sz(sizes, 'J', 2, 1, 5)
+    H, W = _sz(sizes, 'H', 10, 2, 64), _sz(sizes, 'W', 12, 2, 64)
+    rs = np.random.RandomState(rnd.randint(0, 10**6))
+    x = rs.randn(H, W)
+    t, p = _ref_pyramid(x, biort, qshift, J)
+    y = t.inverse(p)
+    err = float(np.abs(y[:H, :W] - x).max())
+    return err < 1e-9 and y.shape == (H + H % 2, W + W % 2), 'reference PR %s/%s J=%d %dx%d err %.3g' % (biort, qshift, J, H, W, err)
